@@ -1,6 +1,7 @@
 """Miscellaneous Routines."""
 
 import io
+import math
 import pathlib
 import string
 from html import escape
@@ -377,7 +378,7 @@ def fsplit(pred: Callable[[_T], bool], objs: Iterable[_T]) -> Tuple[List[_T], Li
 
 def drange(v0: float, v1: float, d: int) -> range:
     """Returns a discrete range."""
-    return range(int(v0) // d, int(v1 + d) // d)
+    return range(math.floor(v0) // d, math.floor(v1 + d) // d)
 
 
 def get_bound(pts: Iterable[Point]) -> Rect:
@@ -771,12 +772,12 @@ class Plane(Generic[LTComponentT]):
 
     def _getrange(self, bbox: Rect) -> Iterator[Point]:
         (x0, y0, x1, y1) = bbox
-        if x1 <= self.x0 or self.x1 <= x0 or y1 <= self.y0 or self.y1 <= y0:
-            return
-        x0 = max(self.x0, x0)
-        y0 = max(self.y0, y0)
-        x1 = min(self.x1, x1)
-        y1 = min(self.y1, y1)
+        # Clamp to the plane: anything outside is filed under the border cells,
+        # so that objects and queries beyond the bounds still meet.
+        x0 = min(max(self.x0, x0), self.x1)
+        y0 = min(max(self.y0, y0), self.y1)
+        x1 = max(min(self.x1, x1), self.x0)
+        y1 = max(min(self.y1, y1), self.y0)
         for grid_y in drange(y0, y1, self.gridsize):
             for grid_x in drange(x0, x1, self.gridsize):
                 yield (grid_x, grid_y)
